@@ -302,6 +302,7 @@ def run(tier):
     progexec.check_ffwd_arith(rep)          # the real fast-forward statement of _read_port == `loops` such iterations, never past the edge
     from props import fastloadvc, edgevc
     edgevc.check_edge_bookkeeping(rep, 'C13')   # LoadTracer.run: edge index advanced over exactly the edges strictly before the current time
+    edgevc.check_fast_load_bookkeeping(rep, 'C13')   # ... and set to the block's last edge after a fast load
     fastloadvc.check_fast_load(rep, 'C13')  # ROM fast loading: which bytes land where, registers on exit
     fastloadvc.crosscheck_fast_load(rep, 'C13')
     progexec.crosscheck_ffwd(rep, 'C13')
